@@ -2,6 +2,7 @@
 SPECIFICATION Spec
 CONSTANT Scripts <- S_EEXX_EX
 CONSTANT GC0S = {TRUE, FALSE}
+CONSTANT MaxFlips = 1
 INVARIANT AbsOK
 INVARIANT InvCountNonNeg
 INVARIANT InvGcOffWhileInFlight
